@@ -4,6 +4,8 @@ CONSTANTS
   I = 4
   B = 2
   Global = TRUE
+  D = 1
+  DropWhenBusy = FALSE
   Export = FALSE
 INVARIANTS TypeOK BoundedRefresh
 PROPERTIES Live
